@@ -71,4 +71,15 @@ def stepG (w : PoolWorld) : GOp → PoolWorld
 
 def runG (w : PoolWorld) (ops : List GOp) : PoolWorld := ops.foldl stepG w
 
+/-- copy constructor `FactorGraph(const FactorGraph & other)`: for each node of `other`, ONE node is taken from the pool
+    if there is one (and assigned `= *oIt`, a whole-node overwrite) or freshly emplaced; returns (pool left, the copy) -/
+def copyNodes : List FNode → List FNode → List FNode × List FNode
+  | pool, [] => (pool, [])
+  | [], n :: rest => let (p, c) := copyNodes [] rest; (p, n :: c)
+  | _ :: pool, n :: rest => let (p, c) := copyNodes pool rest; (p, n :: c)
+
+def copyGraph (w : PoolWorld) : PoolWorld :=
+  let (p, c) := copyNodes w.pool w.graph
+  { pool := p, graph := c }
+
 end AITB.Hidden
